@@ -600,7 +600,7 @@ func c01Alphabet(full bool) []c01Pair {
 	d2 := bD("_id", i(2), "a", i(2), "b", "x")
 	d1dup := bD("_id", i(1), "a", i(3))
 	dgen := bD("a", i(1))
-	d3 := bD("_id", i(3), "a", bson.A{i(1), i(2)}, "b", bD("c", i(1)))
+	d3 := bD("_id", i(3), "a", bson.A{i(1), i(2), i(1)}, "b", bD("c", i(1))) // an array repeating an element: one index key, not two
 	ps := []c01Pair{
 		pInsertOne("d", "c", d1), pInsertOne("d", "c", d2), pInsertOne("d", "c", d1dup), pInsertOne("d", "c", dgen), pInsertOne("d", "c", d3),
 		pInsertMany("d", "c", true, bD("_id", i(4), "a", i(4)), d1dup, bD("_id", i(5), "a", i(5))),
@@ -633,6 +633,11 @@ func c01Alphabet(full bool) []c01Pair {
 		pFindOneAndUpdate("d", "c", bD("b", "x"), bD("$inc", bD("a", i(10))), bD("a", i(-1)), true, false),
 		pFindOneAndUpdate("d", "c", bD("_id", i(8)), bD("$set", bD("a", i(1))), nil, false, true),
 		pFindOneAndReplace("d", "c", bD("a", bD("$lte", i(2))), bD("a", i(2), "r", i(1)), bD("_id", i(-1)), false, false),
+		// find-one-and-modify calls that return the new version although nothing changes
+		pFindOneAndUpdate("d", "c", bD("_id", i(1)), bD("$set", bD("b", "x")), nil, true, false),
+		pFindOneAndReplace("d", "c", bD("_id", i(2)), bD("a", i(2), "b", "x"), nil, true, false),
+		// a sort equal to the key of the (partial) unique index
+		pFind("d", "c", bD(), bD("a", i(1)), nil, 0, 0),
 		pFindOneAndDelete("d", "c", bD(), bD("a", i(1), "_id", i(-1))),
 		pBulk("d", "c", true, "ins,upd,del,dupins,ins", []c01Op{{kind: "insert", doc: bD("_id", i(10), "a", i(10))}, {kind: "updateMany", filter: bD(), doc: bD("$set", bD("k", i(1)))}, {kind: "deleteOne", filter: bD("_id", i(2))}, {kind: "insert", doc: d1dup}, {kind: "insert", doc: bD("_id", i(11))}}),
 		pBulk("d", "c", false, "ins,upd,del,dupins,ins", []c01Op{{kind: "insert", doc: bD("_id", i(10), "a", i(10))}, {kind: "updateMany", filter: bD(), doc: bD("$set", bD("k", i(1)))}, {kind: "deleteOne", filter: bD("_id", i(2))}, {kind: "insert", doc: d1dup}, {kind: "insert", doc: bD("_id", i(11))}}),
